@@ -125,6 +125,19 @@ impl Fingerprint {
             self.fields.push(f);
         }
     }
+    /// In-run invariant: two observations made inside ONE run that must be equal whatever the
+    /// environment - the same call repeated on the same objects, an object reused against a fresh
+    /// one, a piece of thread state before and after the run.  Stored as a two-value field whose
+    /// name starts with `must_agree:`; [`Fingerprint::broken_invariant`] finds a violated one.
+    pub fn must_agree(&mut self, name: &str, first: u64, second: u64) {
+        self.raw(&format!("must_agree:{name}"), [first, second]);
+    }
+    pub fn broken_invariant(&self) -> Option<(String, String, String)> {
+        self.fields
+            .iter()
+            .find(|f| f.name.starts_with("must_agree:") && f.head.len() == 2 && f.head[0] != f.head[1])
+            .map(|f| (format!("{} (two observations inside one run that must be equal)", &f.name["must_agree:".len()..]), format!("{:016x}", f.head[0]), format!("{:016x}", f.head[1])))
+    }
     pub fn digest(&self) -> u64 {
         let mut h = 0xcbf29ce484222325u64;
         for f in &self.fields {
